@@ -25,6 +25,7 @@
 
 #include <arpa/inet.h>
 
+#include <array>
 #include <bit>
 #include <cinttypes>
 #include <limits>
@@ -128,10 +129,12 @@ enum Fn {
     F_CMP, F_IN_RANGE, F_SATURATE_CAST, F_GCD_MIXED, F_LCM_MIXED,
     // templated position / base forms
     F_BIT_TEMPLATE, F_IPOW_TEMPLATE,
+    // popcount evaluated in a constant expression (takes the portable fallback instead of the builtin)
+    F_POPCOUNT_CONSTEXPR,
     F_COUNT
 };
 char const* const FN[F_COUNT] = {"popcount", "countl_zero", "countl_one", "countr_zero", "countr_one", "bit_width", "bit_ceil", "bit_floor", "has_single_bit", "byteswap", "abs", "ilog2", "hton_ntoh", "rotl", "rotr", "set_bit",
-    "set_bit_value", "reset_bit", "flip_bit", "test_bit", "add_sat", "div_sat", "midpoint", "gcd", "lcm", "idiv", "ipow", "cmp", "in_range", "saturate_cast", "gcd_mixed", "lcm_mixed", "bit_template", "ipow_template"};
+    "set_bit_value", "reset_bit", "flip_bit", "test_bit", "add_sat", "div_sat", "midpoint", "gcd", "lcm", "idiv", "ipow", "cmp", "in_range", "saturate_cast", "gcd_mixed", "lcm_mixed", "bit_template", "ipow_template", "popcount_constexpr"};
 constexpr Fn UNARY_FIRST = F_POPCOUNT, UNARY_LAST = F_HTON;
 constexpr Fn BINARY_FIRST = F_ADD_SAT, BINARY_LAST = F_IPOW;
 
@@ -806,7 +809,6 @@ void wide(vf::Ctx& c, std::uint64_t& work)
 template <typename T, typename U>
 void pairs(vf::Ctx& c, std::uint64_t& work)
 {
-    if (!c.mine(work++)) { return; }
     using UT = std::make_unsigned_t<T>;
     using UU = std::make_unsigned_t<U>;
     auto all = [&](T a, U b) {
@@ -815,6 +817,7 @@ void pairs(vf::Ctx& c, std::uint64_t& work)
         run_pair<T, U>(F_LCM_MIXED, a, b);
     };
     if constexpr (sizeof(T) == 1 && sizeof(U) == 1) {
+        if (!c.mine(work++)) { return; }
         for (unsigned i = 0; i < 256; ++i) {
             T const a = static_cast<T>(static_cast<UT>(i));
             run_pair<T, U>(F_IN_RANGE, a, U{});
@@ -822,20 +825,27 @@ void pairs(vf::Ctx& c, std::uint64_t& work)
             for (unsigned j = 0; j < 256; ++j) { all(a, static_cast<U>(static_cast<UU>(j))); }
         }
     } else if constexpr (sizeof(T) <= 2 && sizeof(U) <= 2) {
-        // every value of the first type x the boundary grid of the second, and the other way round
+        // every value of the first type x the boundary grid of the second, and the other way round (work items of 8192 values)
         auto const limit_t = sizeof(T) == 1 ? 256U : 65536U;
-        for (unsigned i = 0; i < limit_t; ++i) {
-            T const a = static_cast<T>(static_cast<UT>(i));
-            run_pair<T, U>(F_IN_RANGE, a, U{});
-            run_pair<T, U>(F_SATURATE_CAST, a, U{});
-            for (U b : grid16<U>()) { all(a, b); }
+        for (unsigned lo_i = 0; lo_i < limit_t; lo_i += 8192) {
+            if (!c.mine(work++)) { continue; }
+            for (unsigned i = lo_i; i < limit_t && i < lo_i + 8192; ++i) {
+                T const a = static_cast<T>(static_cast<UT>(i));
+                run_pair<T, U>(F_IN_RANGE, a, U{});
+                run_pair<T, U>(F_SATURATE_CAST, a, U{});
+                for (U b : grid16<U>()) { all(a, b); }
+            }
         }
         auto const limit_u = sizeof(U) == 1 ? 256U : 65536U;
-        for (unsigned j = 0; j < limit_u; ++j) {
-            U const b = static_cast<U>(static_cast<UU>(j));
-            for (T a : grid16<T>()) { all(a, b); }
+        for (unsigned lo_j = 0; lo_j < limit_u; lo_j += 8192) {
+            if (!c.mine(work++)) { continue; }
+            for (unsigned j = lo_j; j < limit_u && j < lo_j + 8192; ++j) {
+                U const b = static_cast<U>(static_cast<UU>(j));
+                for (T a : grid16<T>()) { all(a, b); }
+            }
         }
     } else {
+        if (!c.mine(work++)) { return; }
         for (T a : boundary<T>()) {
             run_pair<T, U>(F_IN_RANGE, a, U{});
             run_pair<T, U>(F_SATURATE_CAST, a, U{});
@@ -913,6 +923,65 @@ void ipow_tpl(vf::Ctx& c, std::uint64_t& work)
         ++g_evals[F_IPOW_TEMPLATE];
         ++g_nt;
     }
+}
+
+// popcount has two code paths: the builtin at run time and a portable loop during constant evaluation.  The loop is
+// evaluated here at compile time into tables; the tables are compared with the definition at run time.
+template <typename T, std::size_t N>
+constexpr auto popcount_table(std::array<T, N> const& in) -> std::array<int, N>
+{
+    std::array<int, N> out{};
+    for (std::size_t i = 0; i < N; ++i) { out[i] = etl::popcount(in[i]); }
+    return out;
+}
+constexpr auto all_u8() -> std::array<u8, 256>
+{
+    std::array<u8, 256> a{};
+    for (unsigned i = 0; i < 256; ++i) { a[i] = static_cast<u8>(i); }
+    return a;
+}
+template <typename T>
+constexpr auto bit_patterns() -> std::array<T, 4 * sizeof(T) * 8>
+{
+    std::array<T, 4 * sizeof(T) * 8> a{};
+    for (std::size_t k = 0; k < sizeof(T) * 8; ++k) {
+        T const bit  = static_cast<T>(T{1} << k);
+        a[4 * k]     = bit;
+        a[4 * k + 1] = static_cast<T>(bit - 1);
+        a[4 * k + 2] = static_cast<T>(~bit);
+        a[4 * k + 3] = static_cast<T>(bit | 1U | static_cast<T>(T{1} << (sizeof(T) * 8 - 1)));
+    }
+    return a;
+}
+template <typename T, std::size_t N>
+void popcount_constexpr_one(std::array<T, N> const& in, std::array<int, N> const& out)
+{
+    for (std::size_t i = 0; i < N; ++i) {
+        Case k{FN[F_POPCOUNT_CONSTEXPR], tname<T>(), sx(in[i]), 0, false, false};
+        vf::Flight<Case> fl(k.fn, k);
+        if (out[i] != naive_popcount(ubits(in[i]))) {
+            vf::mismatch(k.fn, k, std::string("etl::popcount(") + tname<T>() + " " + str(in[i]) + ") evaluated in a constant expression = " + std::to_string(out[i]) + ", expected " + std::to_string(naive_popcount(ubits(in[i]))));
+            return;
+        }
+        ++g_evals[F_POPCOUNT_CONSTEXPR];
+        ++g_nt;
+    }
+}
+void popcount_constexpr(vf::Ctx& c, std::uint64_t& work)
+{
+    if (!c.mine(work++)) { return; }
+    static constexpr auto i8v = all_u8();
+    static constexpr auto o8  = popcount_table(i8v);
+    static constexpr auto i16v = bit_patterns<u16>();
+    static constexpr auto o16  = popcount_table(i16v);
+    static constexpr auto i32v = bit_patterns<u32>();
+    static constexpr auto o32  = popcount_table(i32v);
+    static constexpr auto i64v = bit_patterns<u64>();
+    static constexpr auto o64  = popcount_table(i64v);
+    popcount_constexpr_one(i8v, o8);
+    popcount_constexpr_one(i16v, o16);
+    popcount_constexpr_one(i32v, o32);
+    popcount_constexpr_one(i64v, o64);
 }
 
 // ------------------------------------------------------------------------------------------------ part 3: random sweep
@@ -1005,7 +1074,7 @@ template <typename T>
 auto replay_single(Fn fn, u64 a, u64 b) -> bool
 {
     using UT = std::make_unsigned_t<T>;
-    if (fn == F_BIT_TEMPLATE || fn == F_IPOW_TEMPLATE) { return false; }
+    if (fn == F_BIT_TEMPLATE || fn == F_IPOW_TEMPLATE || fn == F_POPCOUNT_CONSTEXPR) { return false; }
     Case k{FN[fn], tname<T>(), a, b, std::is_signed_v<T>, false};
     vf::Flight<Case> fl(k.fn, k);
     Res const r = check<T>(fn, static_cast<T>(static_cast<UT>(a)), b);
@@ -1090,6 +1159,7 @@ void vf_run(vf::Ctx& c)
     ipow_tpl<u64{10}>(c, work);
     ipow_tpl<i16{2}>(c, work);
     ipow_tpl<u8{2}>(c, work);
+    popcount_constexpr(c, work);
 #endif
 #if C14_PART == 0 || C14_PART == 3
     {
@@ -1124,12 +1194,14 @@ std::string vf_replay(std::string const& sub, std::string const& cs)
     auto& c       = vf::ctx();
     c.shard       = 0;
     c.nshards     = 1;
-    if (fn == F_BIT_TEMPLATE || fn == F_IPOW_TEMPLATE || t == "char") {
+    if (fn == F_BIT_TEMPLATE || fn == F_IPOW_TEMPLATE || fn == F_POPCOUNT_CONSTEXPR || t == "char") {
         // small families: re-run them completely (a mismatch ends the process with the failing case)
         g_replay           = false;
         std::uint64_t work = 0;
         if (t == "char") {
             narrow_char(c, work);
+        } else if (fn == F_POPCOUNT_CONSTEXPR) {
+            popcount_constexpr(c, work);
         } else if (fn == F_BIT_TEMPLATE) {
             bit_tpl<u8>(c, work, std::make_index_sequence<8>{});
             bit_tpl<u16>(c, work, std::make_index_sequence<16>{});
